@@ -54,6 +54,7 @@ class RunawayPrompt(BaseException):
     wall-clock one."""
 
 
+MAX_TIMES_SAME_QUESTION = 8
 MAX_CALLS_PER_QUESTION = 60
 
 
@@ -77,6 +78,11 @@ def session(year, forms, path, answer_fn, fault=None, extra_args=(), on_prompt=N
             state['cur'] = m.group(1)
             state['n'] += 1
             reask = False
+            # the same question put again and again (each time as a fresh question) is the same runaway loop
+            asked_ = state.setdefault('asked', {})
+            asked_[state['cur']] = asked_.get(state['cur'], 0) + 1
+            if asked_[state['cur']] > MAX_TIMES_SAME_QUESTION:
+                raise RunawayPrompt(f'{state["cur"]} was asked {asked_[state["cur"]]} times in one session')
         else:
             reask = True
         k = state['n']
@@ -217,6 +223,7 @@ def write_ini(path, kv, annotated=False):
                 out.append('# ' + ('what this box means, copied from the template ' * 2))
             out.append(line)
         out += ['', '[zz_notes]'] + [f'note_{k} = remember to ask the accountant about item {k} before filing' for k in range(40)]
+        out += ['mailing = 12 Main St', '    Apt 4 (rear)', '    Durham: NC = 27701']      # a value over several lines
         out += ['bank = 5% Savings Bank (statement not received yet)', 'reminder = 100% of the refund goes to savings; see %(folder)s']
         with open(path, 'w') as f:
             f.write('\n'.join(out) + '\n')
